@@ -447,3 +447,100 @@ func runBigCollection(c *Ctx, prop string) {
 		}
 	}
 }
+
+// bigIntegrity (C11): detection and Repair on collections whose number of directory entries
+// crosses the batch sizes a directory listing may use (the collection directory also holds
+// schema.json: n objects = n+1 entries).
+func bigIntegrity(c *Ctx, cfg Cfg, n int) []Violation {
+	return runBig("C11", cfg, func(b *bigWorld) {
+		objs := make([]sod.Object, 0, n)
+		for i := 0; i < n; i++ {
+			o := &Wide{A: i % 7, B: wideB(i % 7), U: i, K: wideKey(), N: wideSerial, Seq: i}
+			objs = append(objs, o)
+		}
+		if k, err := b.db.InsertOrUpdateMany(objs...); err != nil || k != n {
+			b.fail("insert", fmt.Sprintf("InsertOrUpdateMany of %d objects returned (%d, %v)", n, k, err))
+			return
+		}
+		if err := b.db.Control(); err != nil {
+			b.fail("false-alarm|live", fmt.Sprintf("Control reports an error on an intact collection of %d objects: %v", n, err))
+			return
+		}
+		if err := b.db.Close(); err != nil {
+			b.fail("close", "Close failed: "+err.Error())
+			return
+		}
+		b.db = sod.Open(dbRoot)
+		if cnt, err := b.db.Count(&Wide{}); err != nil || cnt != n {
+			b.fail("false-alarm|load", fmt.Sprintf("a new handle on an intact collection of %d objects counts (%d, %v)", n, cnt, err))
+			return
+		}
+		if err := b.db.Control(); err != nil {
+			b.fail("false-alarm|reopened", fmt.Sprintf("Control on a new handle reports an error on an intact collection of %d objects: %v", n, err))
+			return
+		}
+		// remove the file of the last object and add a copy of the first under a fresh id
+		fsys := vfs.Cur
+		dir := ""
+		for _, p := range fsys.Paths(dbRoot) {
+			if len(p) > 12 && p[len(p)-12:] == "/schema.json" {
+				dir = p[:len(p)-12]
+			}
+		}
+		last := objs[n-1].UUID()
+		removed := false
+		for _, p := range fsys.Paths(dir) {
+			if len(p) > len(dir)+36 && p[len(dir)+1:len(dir)+37] == last {
+				fsys.Del(p)
+				removed = true
+			}
+		}
+		if !removed {
+			b.fail("setup", "object file not found")
+			return
+		}
+		db2 := sod.Open(dbRoot)
+		if _, err := db2.Count(&Wide{}); !sod.IsIndexCorrupted(err) {
+			b.fail("undetected|load", fmt.Sprintf("one object file of %d was removed; a new handle answers Count with %v", n, err))
+			return
+		}
+		if err := db2.Repair(&Wide{}); err != nil {
+			b.fail("repair-failed", fmt.Sprintf("Repair on a collection of %d objects with one file removed failed: %v", n, err))
+			return
+		}
+		if err := db2.Control(); err != nil {
+			b.fail("control-after-repair", "Control fails after Repair: "+err.Error())
+			return
+		}
+		if cnt, err := db2.Count(&Wide{}); err != nil || cnt != n-1 {
+			b.fail("count-after-repair", fmt.Sprintf("after Repair Count = (%d, %v), expected %d", cnt, err, n-1))
+		}
+		c.Count("evaluations", 1)
+	})
+}
+
+func runBigC11(c *Ctx) {
+	sizes := []int{999}
+	cfgs := []Cfg{{}}
+	if c.Tier == "thorough" {
+		sizes = []int{63, 64, 255, 256, 999, 1000, 1001, 1999, 2047, 4095}
+		cfgs = append(cfgs, Cfg{Compress: true, Lower: true})
+	}
+	item := 0
+	for _, cfg := range cfgs {
+		for _, n := range sizes {
+			item++
+			if item%c.NShards != c.Shard {
+				continue
+			}
+			for _, v := range bigIntegrity(c, cfg, n) {
+				c.Violation(v)
+			}
+			c.Count("transitions", n)
+			c.Count("paths_replayed", 1)
+			key := fmt.Sprintf("bigintegrity|%s|%d", cfg.String(), n)
+			c.Distinct("states", key)
+			c.Distinct("distinct_nontrivial", key)
+		}
+	}
+}
